@@ -867,7 +867,7 @@ fn in_contract(part: Frag) -> Frag {
 fn in_file(part: Frag) -> Frag {
     file(vec![pragma(PRAGMA), part])
 }
-fn in_func(stmt: Frag) -> Frag {
+pub fn in_func(stmt: Frag) -> Frag {
     in_contract(func("f", &["public"], vec![stmt]))
 }
 
